@@ -105,6 +105,64 @@ Section Order.
   Definition total_on_b (l : list rid) : bool := pairs_increasing (sort_legacy l).
 End Order.
 
+(* ---------- exact guards on an id set (LegacyExact.v) ---------- *)
+
+Section Guards.
+  Variable first last : list string.
+
+  (* the reversed comparison of gvkLessThan applies to this pair *)
+  Definition ns_special (a b : gvk) : bool :=
+    (String.eqb (g_kind a) namespace_kind && String.eqb (g_kind b) namespace_kind) &&
+    (String.eqb (g_group a) "" || String.eqb (g_group b) "").
+
+  (* o is a kind other than Namespace that shares Namespace's rank and whose sort string lies strictly
+     between those of a reversed pair x, y: then x < y < o < x *)
+  Definition straddles (x y o : gvk) : bool :=
+    ns_special x y && negb (String.eqb (g_kind o) namespace_kind) &&
+    Z.eqb (type_order first last (g_kind o)) (type_order first last namespace_kind) &&
+    sltb (legacy_gvk_sort_string y) (legacy_gvk_sort_string o) &&
+    sltb (legacy_gvk_sort_string o) (legacy_gvk_sort_string x).
+
+  Definition straddle_free_b (l : list rid) : bool :=
+    forallb (fun x => forallb (fun y => forallb (fun o =>
+      negb (straddles (id_gvk x) (id_gvk y) (id_gvk o))) l) l) l.
+End Guards.
+
+(* ---------- the comparator with the rank guard of the proposed repair ----------
+   gvkLessThan with `index1 != 0 &&` in front of the Namespace test (fix L-legacy-namespace-reversal-rank):
+   the reversal applies only when "Namespace" is on one of the lists.  [guarded = false] is the code without
+   the guard, i.e. [legacy_less]; which of the two the source contains is read by the translator
+   (Gen/LegacyOrder.gen_ns_reversal_guarded). *)
+Section OrderG.
+  Variable guarded : bool.
+  Variable first last : list string.
+
+  Definition gvk_less_than_g (a b : gvk) : bool :=
+    let i1 := type_order first last (g_kind a) in
+    let i2 := type_order first last (g_kind b) in
+    if negb (Z.eqb i1 i2) then Z.ltb i1 i2
+    else if (negb guarded || negb (Z.eqb i1 0%Z)) &&
+            ((String.eqb (g_kind a) namespace_kind && String.eqb (g_kind b) namespace_kind) &&
+             (String.eqb (g_group a) "" || String.eqb (g_group b) ""))
+         then sltb (legacy_gvk_sort_string b) (legacy_gvk_sort_string a)
+         else sltb (legacy_gvk_sort_string a) (legacy_gvk_sort_string b).
+
+  Definition legacy_less_g (a b : rid) : bool :=
+    if negb (gvk_eqb (id_gvk a) (id_gvk b)) then gvk_less_than_g (id_gvk a) (id_gvk b)
+    else sltb (legacy_resid_sort_string a) (legacy_resid_sort_string b).
+
+  Definition sort_legacy_g (l : list rid) : list rid := isort legacy_less_g l.
+
+  Fixpoint pairs_increasing_g (l : list rid) : bool :=
+    match l with
+    | [] => true
+    | x :: t => negb (legacy_less_g x x) &&
+                forallb (fun y => legacy_less_g x y && negb (legacy_less_g y x)) t && pairs_increasing_g t
+    end.
+  (* the exact guard: is the comparator a strict total order on this id set? *)
+  Definition total_on_g_b (l : list rid) : bool := pairs_increasing_g (sort_legacy_g l).
+End OrderG.
+
 (* ---------- identity of resources in a ResMap ---------- *)
 
 Section Ident.
